@@ -155,7 +155,8 @@ Inductive prim : st -> st -> Prop :=
 | p_connect_ev s c : c <> 0%Z -> prim s (ev (EConnect c) s)
 | p_reopen s : closing s = false -> connected s = false -> prim s (ev EReopen (set_writable true s))
 | p_conn_start s : connecting s = false -> prim s (ev (EConnect 0%Z) (set_connecting true s))
-| p_orphan s l : prim s (ev (EOrphan l) s).
+| p_orphan s l : prim s (ev (EOrphan l) s)
+| p_reset s c : prim s (ev (EReset c) s).
 
 Inductive steps : st -> st -> Prop :=
 | st_refl s : steps s s
@@ -289,6 +290,7 @@ Proof.
       constructor; auto. unfold rwf, req_size; simpl. split; lia.
     + apply Forall_app; split; auto.
     + apply Forall_app; auto.
+  - constructor; unfold live; cbn; auto. apply Forall_app3; auto. apply Forall_app; auto.
   - constructor; unfold live; cbn; auto. apply Forall_app3; auto. apply Forall_app; auto.
   - constructor; unfold live; cbn; auto. apply Forall_app3; auto. apply Forall_app; auto.
   - constructor; unfold live; cbn; auto. apply Forall_app3; auto. apply Forall_app; auto.
@@ -681,6 +683,15 @@ Proof.
       eapply st_step; [apply (p_conn_start (set_fed true (set_derr (conn_derr cres) sA))); exact Hcg | apply orphan_steps].
 Qed.
 
+Lemma api_close_reset_sim s : steps s (api_close_reset s) /\ aframe s (api_close_reset s).
+Proof.
+  unfold api_close_reset. destruct (closing s) eqn:Hc; [split; [constructor | unfold aframe; auto]|].
+  destruct (shutreq s); [split; [apply steps_one, p_reset | unfold aframe; cbn; auto]|].
+  destruct (api_close_sim (ev (EReset 0%Z) s)) as [A B]. split.
+  - eapply st_step; [apply p_reset | exact A].
+  - exact B.
+Qed.
+
 Lemma api_sim s o : steps s (api s o) /\ aframe s (api s o).
 Proof.
   destruct o; cbn [api].
@@ -691,6 +702,7 @@ Proof.
   - apply api_write2_nomem_sim.
   - apply api_connect_sim.
   - split; [constructor | unfold aframe; auto].
+  - apply api_close_reset_sim.
 Qed.
 
 Lemma aframe_trans s1 s2 s3 : aframe s1 s2 -> aframe s2 s3 -> aframe s1 s3.
@@ -1043,7 +1055,7 @@ Definition ev_id_lt (n : nat) (e : event) : Prop :=
 Definition neutral (e : event) : Prop :=
   match e with
   | EShut _ | ESysShut _ | EShutCb _ | ECloseCb | EQ _ | ETry _ _ | ETryRet _ _ | EConnCb _
-  | EWrite2 _ | EFd _ | EFdFail _ | EConnect _ | EReopen | EOrphan _ => True
+  | EWrite2 _ | EFd _ | EFdFail _ | EConnect _ | EReopen | EOrphan _ | EReset _ => True
   | _ => False
   end.
 
@@ -1395,6 +1407,7 @@ Proof.
   - apply I2_neutral; simpl; auto.
   - apply I2_neutral; simpl; auto.
   - apply I2_neutral; simpl; auto.
+  - apply I2_neutral; simpl; auto.
 Qed.
 
 Lemma Inv12_steps s s' : steps s s' -> Inv1 s /\ Inv2 s -> Inv1 s' /\ Inv2 s'.
@@ -1700,6 +1713,7 @@ Proof.
   - apply I3_plain; simpl; auto.
   - apply I3_plain; simpl; auto.
   - apply I3_plain; simpl; auto.
+  - apply I3_plain; simpl; auto.
 Qed.
 
 Lemma Inv3_init blk o sa pw c ip : Inv3 (init blk o sa pw c ip).
@@ -1915,7 +1929,7 @@ Definition inert (e : event) : Prop :=
 Lemma Inv4_inert s e : inert e -> Inv4 s -> Inv4 (ev e s).
 Proof.
   intros Hi. apply Inv4_event.
-  - intros X _. unfold hold_ok. destruct X as [| | | | | | z | | | | | | | | | | |]; auto; try (destruct e; simpl in *; tauto).
+  - intros X _. unfold hold_ok. destruct X as [| | | | | | z | | | | | | | | | | | |]; auto; try (destruct e; simpl in *; tauto).
     destruct z; auto. destruct e; simpl in *; tauto.
   - destruct e; simpl in *; tauto.
 Qed.
@@ -1939,7 +1953,7 @@ Proof.
   - intros c H. destruct (E c H) as [_ X]. rewrite X in Hw. discriminate.
 Qed.
 
-Ltac hold_cases X z a c := destruct X as [| | | | | | z | a | c | | | | | | | | |]; unfold hold_ok; simpl; auto;
+Ltac hold_cases X z a c := destruct X as [| | | | | | z | a | c | | | | | | | | | |]; unfold hold_ok; simpl; auto;
                            [destruct z; simpl; auto | ..].
 
 (* the trace only grows *)
@@ -2088,6 +2102,7 @@ Proof.
   - apply Inv4_inert; simpl; auto.
   - exfalso. apply Hnr. left; reflexivity.
   - apply Inv4_inert; simpl; auto. apply (Inv4_state s); auto.
+  - apply Inv4_inert; simpl; auto.
   - apply Inv4_inert; simpl; auto.
 Qed.
 
@@ -2289,6 +2304,10 @@ Proof.
     destruct (needs_alloc bufs); [|apply api_write2_kc_cd]. split; [apply KC_same | unfold CD]; auto.
   - congruence.
   - split; [apply KC_refl | apply CD_refl].
+  - unfold api_close_reset. destruct (closing s) eqn:Hc; [split; [apply KC_refl | apply CD_refl]|].
+    destruct (shutreq s); [split; [apply KC_same | unfold CD]; auto|].
+    unfold api_close. change (closing (ev (EReset 0%Z) s)) with (closing s). rewrite Hc.
+    split; [|unfold CD; auto]. unfold KC, FC; cbn. auto.
 Qed.
 
 Lemma Prog_conn_enq s s' :
@@ -2412,6 +2431,10 @@ Proof.
     destruct (needs_alloc bufs); [|apply api_write2_prog; auto]. apply (Prog_same s); auto.
   - apply api_connect_prog; auto.
   - exact P.
+  - unfold api_close_reset. destruct (closing s) eqn:Hc; [exact P|].
+    destruct (shutreq s); [apply (Prog_same s); auto|].
+    unfold api_close. change (closing (ev (EReset 0%Z) s)) with (closing s). rewrite Hc.
+    split; [unfold FC; cbn; auto | left; reflexivity].
 Qed.
 
 (* while connecting is set nothing but a new connect changes the wake-ups; used where Prog itself
@@ -3011,6 +3034,10 @@ Proof.
                        | apply (SP_same _ _ eq_refl eq_refl eq_refl eq_refl (B H))].
   - congruence.
   - auto.
+  - unfold api_close_reset. destruct (closing s) eqn:Hc; [auto|].
+    destruct (shutreq s); [split; [apply B3_same | apply SP_same]; auto|].
+    unfold api_close. change (closing (ev (EReset 0%Z) s)) with (closing s). rewrite Hc.
+    split; intros _; left; reflexivity.
 Qed.
 
 Lemma apis_b3_sp os : noconn os -> forall s, Prog s ->
@@ -3300,6 +3327,7 @@ Proof.
   - apply I5_boring; simpl; auto.
   - apply I5_boring; simpl; auto.
   - apply I5_boring; simpl; auto.
+  - apply I5_boring; simpl; auto.
 Qed.
 
 Lemma Inv5_init blk o sa pw c ip : Inv5 (init blk o sa pw c ip).
@@ -3434,6 +3462,9 @@ Proof.
       destruct (api_write_sr x bufs) as [A B]; rewrite A, B; exact N.
   - unfold api_write2_nomem. destruct (check_before_write2 x); [|destruct (needs_alloc bufs); [exact N|]];
       destruct (api_write2_sr x bufs) as [A B]; rewrite A, B; exact N.
+  - unfold api_close_reset. destruct (closing x); [exact N|].
+    destruct (shutreq x) eqn:Hs; [cbn; rewrite Hs; exact N|].
+    unfold api_close. destruct (closing (ev (EReset 0%Z) x)); cbn; rewrite Hs; discriminate.
 Qed.
 
 Lemma apis_ns os : noconn os -> forall x, NS x -> NS (apis x os).
@@ -4021,6 +4052,10 @@ Proof.
                          (enq_lb s s1 eq_refl eq_refl eq_refl eq_refl (wqs s0 =? 0) H)).
   - congruence.
   - auto.
+  - unfold api_close_reset. destruct (closing s) eqn:Hc; [auto|].
+    destruct (shutreq s); [apply LB0_same; auto|].
+    unfold api_close. change (closing (ev (EReset 0%Z) s)) with (closing s). rewrite Hc.
+    intros _. left. reflexivity.
 Qed.
 
 Ltac start_case :=
